@@ -32,10 +32,9 @@ pub fn with_watchdog<R: Send + 'static>(limit: Duration, f: impl FnOnce() -> R +
 fn main() {
     let args = mcutil::Args::parse();
     mcutil::silence_panics();
-    let code = match args.property.as_str() {
+    mcutil::guarded_main(|| match args.property.as_str() {
         "C09" => c09::run(&args),
         "C10" => c10::run(&args),
         other => mcutil::machinery_error(&format!("rtmc does not serve {other}")),
-    };
-    std::process::exit(code);
+    });
 }
